@@ -278,4 +278,20 @@ CHECKS["C10"] = dict(
     design_ref="DESIGN.md §4 C10",
 )
 
+CHECKS["C30"] = dict(
+    category='exploration',
+    technique='differential property test across processes: Hypothesis-generated template sources compiled under 7 PYTHONHASHSEED values x 2 compilations, byte-for-byte comparison, delta-debugging of mismatches',
+    text="Seven source streams (renamed G-stmt programs, templates of G-inherit and G-modules sets, local scoping shapes, dense templates with 3-8 stores in one frame / filter-test chains / trans blocks with >=3 free variables, G-expr trees, srcgen grammar sources) compiled with Environment.compile(raw=True) twice in 7 fresh processes (PYTHONHASHSEED 0-5, 12345) under drawn environment options; all 14 generated sources must be identical. Batched per shard (one subprocess per seed, digests compared; a mismatch is re-run alone with full sources and a diff, then delta-debugged). 19.8k templates quick, 320k thorough; 5/5 'remove sorted' mutants incl. the F25 revert killed in every shard; found F50.",
+    note="Determinism judged on the raw generated source; 7 hash seeds stand for 'any'; compile errors compared by class; F50b (address-bearing object turned into text by a foldable operation) is a listed known finding excluded by predicate.",
+    design_ref="DESIGN.md §4 C30",
+)
+
+CHECKS["C32"] = dict(
+    category='exploration',
+    technique='property-based subset test with a recording Environment (context_class records lookups by owner template, join_path records loads) against jinja2.meta',
+    text='Four streams of template sets (G-stmt programs, G-inherit hierarchies, G-modules include/import sets, a local generator of scoping shapes: branch stores, loop stores, macro defaults, with-bindings referring to the outer name, tuple targets, import names, dynamic template names via variables / conditionals / lists / expressions) rendered on several data assignments: per template, observed context lookups must be a subset of find_undeclared_variables(parse(T)) plus env.globals, and every observed load must be among find_referenced_templates(parse(T)) or that iterator yields None; for G-stmt programs the names the reference interpreter reads from the render data must also be reported. 38k sets quick, 400k thorough; 6/6 meta/idtracking mutants killed.',
+    note="Owner of a lookup = first calling frame outside jinja2/runtime.py (a parent template's code runs with the child's context); lookups made by Python callables are not the template's; environment globals exempt; over-approximation only (extra reported names are fine).",
+    design_ref="DESIGN.md §4 C32",
+)
+
 NOT_YET = "check not built yet in this session (see DESIGN.md §8 for the order of work)"
